@@ -489,9 +489,19 @@ class SE:
     def memo_key(self, st, v):
         """key of an object-keyed local dictionary: identity, for every class that does not redefine __eq__/__hash__ (OuterPin does)"""
         if v[0] != 'ref': raise Unsupported('memo key of kind %s' % v[0])
-        s2 = st.fork(); s2.pc.append(self.ctx.isa(v[1], 'OuterPin'))
-        if self.sat(s2): raise Unsupported('an OuterPin as dictionary key (structural __eq__/__hash__)')
-        return v[1]
+        c = self.ctx
+        s2 = st.fork(); s2.pc.append(c.isa(v[1], 'OuterPin'))
+        if not self.sat(s2): return v[1]
+        # OuterPin.__eq__/__hash__ are structural: the key is the pair (instance, inner pin) at the time of the operation
+        if not hasattr(c, '_opkey'):
+            from z3 import Function, MultiPattern
+            c._opkey = Function('opkey', c.Ref, c.Ref, c.Ref)
+            a1, a2, b1, b2 = (Const(n, c.Ref) for n in ('a1q_ok', 'a2q_ok', 'b1q_ok', 'b2q_ok'))
+            c.axioms += [ForAll([a1, a2, b1, b2], Implies(c._opkey(a1, a2) == c._opkey(b1, b2), And(a1 == b1, a2 == b2)),
+                                patterns=[MultiPattern(c._opkey(a1, a2), c._opkey(b1, b2))]),
+                         ForAll([a1, a2], c.cls(c._opkey(a1, a2)) == c.C['Foreign'], patterns=[c._opkey(a1, a2)])]
+        h = st.heap
+        return self.name_term(st, If(c.isa(v[1], 'OuterPin'), c._opkey(h['_instance'][v[1]], h['_inner_pin'][v[1]]), v[1]))
 
     def getitem(self, st, cv, i, cont):
         c = self.ctx
